@@ -516,14 +516,36 @@ def _syntactic_writes(ef, f: FuncInfo, stmt) -> bool:
     return False
 
 
+def protocol_functions(ctx):
+    """The function that performs the temporary mutation: call_onnx_api itself, or a @contextmanager helper it enters
+    with a `with` statement (the helper's try around its `yield` is then the protecting try). Returns (f, try|None)."""
+    repo = ctx.repo
+    f = repo.func(PROTOCOL)
+    trys = [n for n in f.node.body if isinstance(n, ast.Try) and n.finalbody]
+    if trys:
+        return f, trys[0]
+    for w in (n for n in own_nodes(f.node) if isinstance(n, ast.With)):
+        for item in w.items:
+            c = item.context_expr
+            if isinstance(c, ast.Call):
+                g = f.module.functions.get(dotted_of(c.func) or "")
+                if g is not None and any((dotted_of(d) or "").endswith("contextmanager") for d in g.node.decorator_list):
+                    ts = [n for n in g.node.body if isinstance(n, ast.Try) and n.finalbody
+                          and any(isinstance(y, (ast.Yield, ast.YieldFrom)) for s_ in n.body for y in ast.walk(s_))]
+                    return g, (ts[0] if ts else None)
+    return f, None
+
+
 def rule_r4(ctx, ef):
-    f = ctx.repo.func(PROTOCOL)
+    f, tr = protocol_functions(ctx)
+    if tr is None:
+        ctx.check("R4", "P0: the temporary mutation is undone in a finally", False, f, f.node,
+                  f"{f.local} mutates the model temporarily but the code that undoes it is not in a `finally` (no try/finally around the "
+                  "ONNX call / around the `yield` of the context manager): when the call raises, the model keeps the temporary state",
+                  how="protecting try/finally of call_onnx_api or of the context-manager helper it enters", construct="no protecting finally")
+        return
     cfg, per = ef.events(f)
-    trys = [n for n in own_nodes(f.node) if isinstance(n, ast.Try) and n.finalbody]
-    ctx.require(len(trys) == 1, "call_onnx_api: protecting try/finally not found")
-    tr = trys[0]
     body = f.node.body
-    ctx.require(tr in body, "call_onnx_api: the try is not a top-level statement")
     ti = body.index(tr)
 
     def nodes_of(stmt):
